@@ -53,9 +53,13 @@ def c10_obligations(chk):
         ("oneStepFresnel", lambda it, U: it.call_repo(OP, "oneStepFresnel", [U, wvl, d1, zz]), lambda: wvl * zz / (zr(N) * d1), [zz != 0]),
         ("twoStepFresnel", lambda it, U: it.call_repo(OP, "twoStepFresnel", [U, wvl, d1, d2, zz]), lambda: d2, [zz != 0]),
         ("lensAgainst", lambda it, U: it.call_repo(OP, "lensAgainst", [U, wvl, d1, ff]), lambda: wvl * ff / (zr(N) * d1), [ff != 0]),
+        # the scalar arguments may be NumPy floats (numpy.float64 spacings / distances taken from arrays): a division by a zero NumPy
+        # scalar gives inf / nan and a warning, it does NOT raise ZeroDivisionError
+        ("twoStepFresnel[numpy scalars]", lambda it, U: it.call_repo(OP, "twoStepFresnel", [U, wvl, d1, d2, zz]), lambda: d2, [zz != 0]),
     ]
     for name, call, dout, pre in cases:
-        def run(it, call=call, pre=pre):
+        def run(it, call=call, pre=pre, name=name):
+            it.numpy_scalars = "numpy scalars" in name
             common(it)
             for p in pre:
                 it.ctx.assume(p)
@@ -70,7 +74,7 @@ def c10_obligations(chk):
                 do = dout()
                 goals.append(("power-conserved", zr(opword.energy_factor(it, w)) * do * do == d1 * d1))
             return goals
-        verify(chk, name, OP + ":" + name, run, post, clause="power." + name, replay=rp({"fn": name}), encoding="operator-words+QF_NRA",
+        verify(chk, name, OP + ":" + name.split("[")[0], run, post, clause="power." + name.split("[")[0], replay=rp({"fn": name.split("[")[0], "numpy_scalars": "numpy scalars" in name}), encoding="operator-words+QF_NRA",
                summaries=SUMMARIES, frame=True)
 
 
